@@ -1339,6 +1339,21 @@ func normCond(c Val, pol bool) (Val, bool) {
 					}
 				}
 			case token.EQL:
+				// b == true  ==>  b      b == false  ==>  !b
+				if isBoolType(x.X.Type()) {
+					if k, isK := constBool(x.Y); isK {
+						if _, both := constBool(x.X); !both {
+							c, pol = x.X, pol == k
+							continue
+						}
+					}
+					if k, isK := constBool(x.X); isK {
+						if _, both := constBool(x.Y); !both {
+							c, pol = x.Y, pol == k
+							continue
+						}
+					}
+				}
 				// canonical operand order: constants last, otherwise by key
 				_, cx := x.X.(*ConstV)
 				_, cy := x.Y.(*ConstV)
@@ -2202,6 +2217,12 @@ func (en *Engine) lookupFrozen(st *State, fr *Frame, x *ssa.Lookup, a *AllocV, k
 		s.facts = append(s.facts, Fact{Cond: cnd, Pol: pol, Instr: x, Seq: len(s.events)})
 		set(s, e.v, true)
 		out = append(out, s)
+		if b, known := decide(miss, cnd); known {
+			if b == pol {
+				missOK = false // the entries exhaust the key's values (a two-entry table keyed by a boolean)
+			}
+			continue
+		}
 		miss.facts = append(miss.facts, Fact{Cond: cnd, Pol: !pol, Instr: x, Seq: len(miss.events)})
 	}
 	if missOK {
